@@ -1379,6 +1379,11 @@ impl Parser {
                             let value = if self.peek(&TokenEnum::Comma)
                                 || self.peek(&TokenEnum::RightBrace)
                             {
+                                if only_literal_children {
+                                    // the shorthand `S { x }` reads a variable, it is not a literal
+                                    self.push_error(ParseErrorEnum::InvalidLiteral, name_meta);
+                                    return Err(());
+                                }
                                 Expr::untyped(ExprEnum::Identifier(name.clone()), name_meta)
                             } else {
                                 self.expect(&TokenEnum::Colon)?;
@@ -1397,6 +1402,10 @@ impl Parser {
                                 let value = if self.peek(&TokenEnum::Comma)
                                     || self.peek(&TokenEnum::RightBrace)
                                 {
+                                    if only_literal_children {
+                                        self.push_error(ParseErrorEnum::InvalidLiteral, name_meta);
+                                        return Err(());
+                                    }
                                     Expr::untyped(ExprEnum::Identifier(name.clone()), name_meta)
                                 } else {
                                     self.expect(&TokenEnum::Colon)?;
